@@ -6,7 +6,7 @@
   Values (model GV.Model.Heap = JS objects + `$clone` where `cloneAt`; spec GV.Spec.GoValue = flat Go memory):
     clone_deep, no_sharing, value_semantics_{full (not claimed), counterexample…, partial, cloneAt}, cloneAt_newLocation
 -/
-import GV.Proofs.SliceAppend
+import GV.Proofs.SliceAppendSlice
 import GV.Proofs.HeapSim
 
 namespace GV.Props.C07
@@ -77,6 +77,24 @@ theorem append_spec {α} (k : Kind) (zero : α) (A : Arrays α) (s : Hdr) (vals 
     ((append k zero A s vals).hdr.arr ≠ s.arr →
         ∀ id, id < A.length → getArr (append k zero A s vals).arrays id = getArr A id) :=
   append_spec' k zero A s vals hwf harr
+
+/-- `append(s, t...)`: elements of `s` followed by the ORIGINAL elements of `t`, also when `t` is a window of the same
+    backing array overlapping the written cells (either direction); reallocation iff `len(s)+len(t) > cap(s)`; within
+    capacity only cells `[len, len+n)` behind `s` are written; beyond capacity no existing array is written. -/
+theorem appendSlice_spec {α} (k : Kind) (zero : α) (A : Arrays α) (s t : Hdr)
+    (hwf : s.wf A) (htw : t.wf A) (harr : s.arr < A.length) (htarr : t.arr < A.length) :
+    view (appendSlice k zero A s t).arrays (appendSlice k zero A s t).hdr = view A s ++ view A t ∧
+    (appendSlice k zero A s t).hdr.len = s.len + t.len ∧
+    (appendSlice k zero A s t).hdr.wf (appendSlice k zero A s t).arrays ∧
+    (((appendSlice k zero A s t).hdr.arr ≠ s.arr) ↔ (t.len ≠ 0 ∧ mustReallocate s.len s.cap t.len)) ∧
+    ((appendSlice k zero A s t).hdr.arr = s.arr →
+        (appendSlice k zero A s t).hdr.off = s.off ∧ (appendSlice k zero A s t).hdr.cap = s.cap ∧
+        getArr (appendSlice k zero A s t).arrays s.arr
+          = moveCells (getArr A s.arr) (getArr A t.arr) (s.off + s.len) t.off t.len ∧
+        ∀ id, id ≠ s.arr → getArr (appendSlice k zero A s t).arrays id = getArr A id) ∧
+    ((appendSlice k zero A s t).hdr.arr ≠ s.arr →
+        ∀ id, id < A.length → getArr (appendSlice k zero A s t).arrays id = getArr A id) :=
+  appendSlice_spec' k zero A s t hwf htw harr htarr
 
 /-- FULL-STRENGTH statement, NOT claimed: after `append` the new backing array never shares element OBJECTS with
     the old one (Go: a reallocated array is a copy, so `t := append(s, x); t[0].f = 1` is invisible through `s`). -/
